@@ -352,6 +352,11 @@ def c02_file():
     for K in ('Energy', 'Pressure'):
         for m in syms(K):
             o += jump_theorem(K, m)
+    o += ['/-- non-vacuity: the default initial state is admissible in every symmetry, and the hypotheses ρ ≠ 0, D ≠ 0 hold at the',
+          'classical Noh state (64, 1/2, 1/3) -/',
+          'example : (⟨1, -1, 0⟩ : NohIC).Admissible 0 ∧ (⟨1, -1, 0⟩ : NohIC).Admissible 1 ∧ (⟨1, -1, 0⟩ : NohIC).Admissible 2',
+          '    ∧ (64 : ℝ) ≠ 0 ∧ (1 / 3 : ℝ) ≠ 0 := by',
+          '  refine ⟨⟨?_, ?_, ?_, ?_⟩, ⟨?_, ?_, ?_, ?_⟩, ⟨?_, ?_, ?_, ?_⟩, ?_, ?_⟩ <;> norm_num', '']
     o += ['end EPV.C02', '']
     return '\n'.join(o)
 
